@@ -131,6 +131,17 @@ def fresh(ctx):
         Q = INT + fn_name
         from .. import absint as _ai2
         glob = [n for n in ast.walk(fn) if isinstance(n, (ast.Global, ast.Nonlocal))]
+        mod_ = repo.module('bridgepoint.interpret')
+        containers_ = {t.id for st in mod_.tree.body if isinstance(st, ast.Assign) for t in st.targets if isinstance(t, ast.Name) and
+                       (isinstance(st.value, (ast.Dict, ast.List, ast.Set)) or
+                        (isinstance(st.value, ast.Call) and (dotted(st.value.func) or '').split('.')[-1] in (
+                            'dict', 'list', 'set', 'defaultdict', 'OrderedDict', 'WeakValueDictionary', 'lru_cache')))}
+        locals_ = {n.id for n in ast.walk(fn) if isinstance(n, ast.Name) and isinstance(n.ctx, ast.Store)} | set(param_names(fn, skip_self=False))
+        cached_ = [n for n in ast.walk(fn) if isinstance(n, ast.Name) and n.id in containers_ and n.id not in locals_]
+        if fn.decorator_list:
+            glob = glob or [fn.decorator_list[0]]
+        if cached_ and not glob:
+            glob = [cached_[0]]
         if glob:
             r.violation('%s keeps state across invocations (`%s`): every invocation must evaluate its action with a walker of its own'
                         % (fn_name, src(glob[0])), glob[0], construct=Q, key='new-walker')
